@@ -30,6 +30,8 @@ struct Pools {
     outsider: PublicKey,
     qcs: Vec<QC>,
     tcs: Vec<TC>,
+    /// index of a listed member with stake 0 (no voting rights), if the committee has one
+    zero: Option<usize>,
 }
 
 fn mutate_qc(qc: &QC, w: &World, p: &Pools) -> Vec<(String, QC)> {
@@ -125,6 +127,15 @@ fn mutants(m: &ConsensusMessage, w: &World, p: &Pools) -> Vec<(String, Consensus
             let mut x = b.clone();
             x.payload.push(p.digests[0].clone());
             push("block payload altered".into(), x, &mut out);
+            if let Some(z) = p.zero {
+                push("the same block authored and correctly signed by a listed member without voting rights".into(), w.block(z, b.round, b.qc.clone(), b.tc.clone(), b.payload.clone()), &mut out);
+                if !b.qc.votes.is_empty() {
+                    let mut x = b.clone();
+                    let d = x.qc.digest();
+                    x.qc.votes.push((w.name(z), w.sign(z, &d)));
+                    push("block whose QC additionally lists a correctly signing member without voting rights".into(), x, &mut out);
+                }
+            }
             for (bit, name) in [(3usize, "low"), (200, "mid"), (300, "s-half"), (511, "last")] {
                 let mut x = b.clone();
                 x.signature = flip(&x.signature, bit);
@@ -181,6 +192,9 @@ fn mutants(m: &ConsensusMessage, w: &World, p: &Pools) -> Vec<(String, Consensus
                 x.round = r;
                 push("vote round altered".into(), x, &mut out);
             }
+            if let Some(z) = p.zero {
+                push("the same vote correctly signed by a listed member without voting rights".into(), w.vote_for(z, v.hash.clone(), v.round), &mut out);
+            }
             for d in &p.digests {
                 if *d != v.hash {
                     let mut x = v.clone();
@@ -212,6 +226,9 @@ fn mutants(m: &ConsensusMessage, w: &World, p: &Pools) -> Vec<(String, Consensus
                 let mut x = t.clone();
                 x.round = r;
                 push("timeout round altered".into(), x, &mut out);
+            }
+            if let Some(z) = p.zero {
+                push("the same timeout correctly signed by a listed member without voting rights".into(), w.timeout(z, t.round, t.high_qc.clone()), &mut out);
             }
             for (d, q) in mutate_qc(&t.high_qc, w, p) {
                 let mut x = t.clone();
@@ -285,6 +302,7 @@ pub fn run_node(rep: &mut Report, tier: Tier, stakes: &[u32], node: usize, max_r
     sc.with_timeouts = with_aggr;
     sc.stale_variants = false;
     sc.with_invalid = false;
+    sc.stakes = stakes.to_vec();
     let mut u = Uni2 { blocks: BTreeMap::new() };
     solo::craft_children(&s, &sc, &mut u);
     let evs = solo::menu(&s, &sc, &u, &[]);
@@ -308,6 +326,7 @@ pub fn run_node(rep: &mut Report, tier: Tier, stakes: &[u32], node: usize, max_r
         members: (0..w.n()).map(|i| w.name(i)).collect(),
         outsider,
         qcs: blocks.iter().take(2).map(|b| w.qc(b, &others)).collect(),
+        zero: (0..w.n()).find(|i| w.stakes[*i] == 0),
         tcs: vec![w.tc(1, &others.iter().map(|o| (*o, 0)).collect::<Vec<_>>()), w.tc(3, &others.iter().map(|o| (*o, 0)).collect::<Vec<_>>())],
     };
     // states: BFS to `depth` over the valid menu
@@ -459,6 +478,7 @@ pub fn c04(tier: Tier) -> i32 {
         Tier::Quick => {
             run_node(&mut rep, tier, &[1, 1, 1, 1], 0, 3, 2, false);
             run_node(&mut rep, tier, &[1, 1, 1, 2], 2, 2, 2, true);
+            run_node(&mut rep, tier, &[1, 1, 1, 1, 0], 2, 2, 2, true);
         }
         Tier::Thorough => {
             for node in 0..4 {
@@ -468,6 +488,7 @@ pub fn c04(tier: Tier) -> i32 {
             run_node(&mut rep, tier, &[1, 1, 1, 2], 2, 2, 3, true);
             run_node(&mut rep, tier, &[3, 1, 1, 1], 1, 2, 3, true);
             run_node(&mut rep, tier, &[2, 2, 1, 1], 0, 3, 3, false);
+            run_node(&mut rep, tier, &[1, 1, 1, 1, 0], 2, 2, 3, true);
         }
     }
     rep.set("exhaustive", json!(true));
